@@ -32,8 +32,10 @@ Inductive mexpr :=
 Inductive fx_event :=
 | FxNegIf (test : nat) (negs : list nat) (clear_direct : bool)
     (* if det(var test) < 0: negate every var in negs; if clear_direct: self._direct = False *)
-| FxTake (var : nat) (slot : nat) (scaled : bool).
+| FxTake (var : nat) (slot : nat) (scaled : bool)
     (* vec12[slot:slot+3] = rotation_mat2vec(var)   (var / s when scaled) *)
+| FxSetDirect (b : bool).
+    (* unconditional self._direct = b *)
 Inductive fx_kind := FSvd | FLin.
 Inductive fx_scale := ScSvd | ScUnit | ScCubeRoot.
 Record fx_prog := { fx_factor : fx_kind; fx_events : list fx_event; fx_sc : fx_scale }.
